@@ -21,6 +21,7 @@ CONSTANTS
   Family = "none"
 INVARIANTS
   VerdictOK
+  NonconfReport
 ALIAS TraceAlias
 POSTCONDITION Accepted
 CHECK_DEADLOCK FALSE
